@@ -58,8 +58,8 @@ pub fn msin_event(b: u8) -> J {
         let parsed = slice::parse_res(&bytes, None, false, false);
         let (pv, verb, pmt, reenc) = if parsed["v"] == "msg" {
             let m = crate::unproj::message(&parsed["m"]);
-            let re = m.as_bytes();
-            ("msg", parsed["m"]["x"][0]["verb"].clone(), parsed["m"]["x"][0]["mt"].clone(), json!(re[4]))
+            let re = crate::gen::ser(&m);
+            ("msg", parsed["m"]["x"][0]["verb"].clone(), parsed["m"]["x"][0]["mt"].clone(), json!(re.get(4).copied().unwrap_or(0)))
         } else {
             ("other", json!(false), json!([0, 0]), json!(0))
         };
